@@ -1,8 +1,10 @@
 (* C16 - Riemannian projection: the operator-algebra facts that hold for every order and rank profile at once.
-   Idempotence and self-adjointness of P (which need the commutation relations of the interface projectors) are measured by the
-   check, not proved here (partial, DESIGN.md).  Only theorem statements closed by `exact`, each followed by Print Assumptions. *)
+   Idempotence, self-adjointness and residual orthogonality are proved from exactly the relations the orthogonal gauges provide:
+   the left projectors A_k are nested (A_j A_k = A_max(j,k)), the right projectors B_k are idempotent, A_j commutes with B_k for
+   j <= k, all are additive and self-adjoint.  That the einsum code realises such A_k, B_k is measured by the check (DESIGN.md).
+   Only theorem statements closed by `exact`, each followed by Print Assumptions. *)
 From Coq Require Import List Arith.
-From TT Require Import ProjP.
+From TT Require Import ProjP ProjAlgP ProjFullP.
 Import ListNotations.
 
 (* P x = x: the base point is fixed by the projection onto its own tangent space *)
@@ -15,13 +17,58 @@ Proof. intros H1 H2. exact (proj_fixes G gz gadd gsub H1 H2). Qed.
 Theorem C16_proj_additive (G : Type) (gz : G) (gadd gsub : G -> G -> G) :
   (forall a, gadd gz a = a) -> (forall a b c, gadd a (gadd b c) = gadd (gadd a b) c) -> (forall a b, gadd a b = gadd b a) ->
   (forall a b c d, gsub (gadd a b) (gadd c d) = gadd (gsub a c) (gsub b d)) ->
-  forall A B dm1, (forall k, additive G gadd (A k)) -> (forall k, additive G gadd (B k)) -> additive G gadd (proj G gz gadd gsub A B dm1).
-Proof. intros H1 H2 H3 H4. exact (proj_additive G gz gadd gsub H1 H2 H3 H4). Qed.
+  forall A B dm1, (forall k, ProjP.additive G gadd (A k)) -> (forall k, ProjP.additive G gadd (B k)) -> ProjP.additive G gadd (proj G gz gadd gsub A B dm1).
+Proof. intros H1 H2 H3 H4. exact (ProjP.proj_additive G gz gadd gsub H1 H2 H3 H4). Qed.
 
 (* the ranks of a tangent vector are at most twice those of the base point *)
 Theorem C16_tangent_ranks_le rs : Forall2 (fun r' r => r' <= 2 * r) (tangent_ranks rs) rs.
 Proof. exact (tangent_ranks_le rs). Qed.
 
+(* P (P z) = P z *)
+Theorem C16_proj_idempotent (G : Type) (gz : G) (gadd : G -> G -> G) (gneg : G -> G) :
+  (forall a, gadd gz a = a) -> (forall a b c, gadd a (gadd b c) = gadd (gadd a b) c) -> (forall a b, gadd a b = gadd b a) ->
+  (forall a, gadd a (gneg a) = gz) ->
+  forall (A B : nat -> G -> G) (dm1 : nat),
+  (forall k, ProjAlgP.additive G gz gadd (A k)) -> (forall k, ProjAlgP.additive G gz gadd (B k)) ->
+  (forall j k x, A j (A k x) = A (Nat.max j k) x) -> (forall k x, B k (B k x) = B k x) ->
+  (forall j k x, j <= k -> A j (B k x) = B k (A j x)) ->
+  forall z, proj G gz gadd (gsub G gadd gneg) A B dm1 (proj G gz gadd (gsub G gadd gneg) A B dm1 z) = proj G gz gadd (gsub G gadd gneg) A B dm1 z.
+Proof. exact (proj_idempotent G gz gadd gneg). Qed.
+
+(* <P x, y> = <x, P y> *)
+Theorem C16_proj_selfadjoint (G : Type) (gz : G) (gadd : G -> G -> G) (gneg : G -> G) :
+  (forall a, gadd gz a = a) -> (forall a b c, gadd a (gadd b c) = gadd (gadd a b) c) -> (forall a b, gadd a b = gadd b a) ->
+  (forall a, gadd a (gneg a) = gz) ->
+  forall (A B : nat -> G -> G) (dm1 : nat),
+  (forall k, ProjAlgP.additive G gz gadd (A k)) -> (forall k, ProjAlgP.additive G gz gadd (B k)) ->
+  (forall j k x, j <= k -> A j (B k x) = B k (A j x)) ->
+  forall (K : Type) (kz : K) (kadd : K -> K -> K) (ip : G -> G -> K),
+  (forall y, ip gz y = kz) -> (forall x, ip x gz = kz) ->
+  (forall a b y, ip (gadd a b) y = kadd (ip a y) (ip b y)) -> (forall x a b, ip x (gadd a b) = kadd (ip x a) (ip x b)) ->
+  (forall a y, ip (gneg a) y = ip a (gneg y)) ->
+  (forall k x y, ip (A k x) y = ip x (A k y)) -> (forall k x y, ip (B k x) y = ip x (B k y)) ->
+  forall x y, ip (proj G gz gadd (gsub G gadd gneg) A B dm1 x) y = ip x (proj G gz gadd (gsub G gadd gneg) A B dm1 y).
+Proof. exact (proj_selfadjoint G gz gadd gneg). Qed.
+
+(* <P z, P w> = <z, P w>: the residual z - P z is orthogonal to every projected tensor *)
+Theorem C16_proj_residual_orthogonal (G : Type) (gz : G) (gadd : G -> G -> G) (gneg : G -> G) :
+  (forall a, gadd gz a = a) -> (forall a b c, gadd a (gadd b c) = gadd (gadd a b) c) -> (forall a b, gadd a b = gadd b a) ->
+  (forall a, gadd a (gneg a) = gz) ->
+  forall (A B : nat -> G -> G) (dm1 : nat),
+  (forall k, ProjAlgP.additive G gz gadd (A k)) -> (forall k, ProjAlgP.additive G gz gadd (B k)) ->
+  (forall j k x, A j (A k x) = A (Nat.max j k) x) -> (forall k x, B k (B k x) = B k x) ->
+  (forall j k x, j <= k -> A j (B k x) = B k (A j x)) ->
+  forall (K : Type) (kz : K) (kadd : K -> K -> K) (ip : G -> G -> K),
+  (forall y, ip gz y = kz) -> (forall x, ip x gz = kz) ->
+  (forall a b y, ip (gadd a b) y = kadd (ip a y) (ip b y)) -> (forall x a b, ip x (gadd a b) = kadd (ip x a) (ip x b)) ->
+  (forall a y, ip (gneg a) y = ip a (gneg y)) ->
+  (forall k x y, ip (A k x) y = ip x (A k y)) -> (forall k x y, ip (B k x) y = ip x (B k y)) ->
+  forall z w, ip (proj G gz gadd (gsub G gadd gneg) A B dm1 z) (proj G gz gadd (gsub G gadd gneg) A B dm1 w) = ip z (proj G gz gadd (gsub G gadd gneg) A B dm1 w).
+Proof. exact (proj_residual_orthogonal G gz gadd gneg). Qed.
+
 Print Assumptions C16_proj_fixes.
 Print Assumptions C16_proj_additive.
 Print Assumptions C16_tangent_ranks_le.
+Print Assumptions C16_proj_idempotent.
+Print Assumptions C16_proj_selfadjoint.
+Print Assumptions C16_proj_residual_orthogonal.
